@@ -12,9 +12,10 @@ BOUNDS = {
     'quick': '3-security tree with symbolic positions and capital (live weights symbolic); symbolic target weights in [-1,1] / [0,1]; limits from grids; selection a '
              'solver-chosen subset; WeighRandomly n<=3 with bounds/sum grids; TargetVol and PTE_Rebalance on 2 assets with symbolic covariance (s11,s22 in '
              '[1e-6,1e-2], |s12| <= sqrt(s11 s22)), degree <= 6',
-    'thorough': 'more grids; WeighInvVol on 2 assets x 3 symbolic returns with sqrt atoms (may be left undecided by nlsat and is then reported as such)',
+    'thorough': 'same configurations with cvc5 second opinion on sampled obligations',
 }
-ASSUMPTIONS = ['WeighERC / WeighMeanVar: numerical optimality of ffn/scipy iterative optimisers is NOT claimed (floating-point kernels); only the wrapper is covered, in C04',
+ASSUMPTIONS = ['WeighInvVol: the numeric risk relation is NOT claimed (ffn kernel concretises via np.std on the frame); its window is covered in C04',
+               'WeighERC / WeighMeanVar: numerical optimality of ffn/scipy iterative optimisers is NOT claimed (floating-point kernels); only the wrapper is covered, in C04',
                'random.uniform(a,b) returns an arbitrary value in [a,b]; random.shuffle an arbitrary permutation (identity used)']
 PR = {'a': [100.0, 105.0], 'b': [37.5, 33.0], 'c': [10.0, 12.5]}
 
@@ -283,6 +284,6 @@ def plan(tier):
             tasks.append(dict(harness='vol', cfg=dict(algo='TargetVol', w=list(w), target=T, deg_limit=8), opts=vopts))
     for cap in (0.0625, 0.25):
         tasks.append(dict(harness='vol', cfg=dict(algo='PTE_Rebalance', cap=cap, deg_limit=8), opts=vopts))
-    if not quick:
-        tasks.append(dict(harness='invvol', cfg=dict(deg_limit=12), opts=dict(max_paths=500, timeout_ms=60000)))
+    # WeighInvVol's risk relation is not claimed: ffn's kernel reduces with np.std / np.isinf on the frame, which concretises symbolic cells
+    # (measured: 'float() of a symbolic real' at algos.py WeighInvVol.__call__); its window arithmetic is covered by C04.
     return tasks
